@@ -129,6 +129,7 @@ def float_model(ctx, rule):
         return
     f = ctx.repo.func(P + reg)
     problems = []
+    deferred = None
     for kind, value, rep in (("a finite float", 1.5, "1.5"), ("a negative float", -2.0, "-2.0"), ("inf", math.inf, "inf"), ("-inf", -math.inf, "-inf"), ("nan", math.nan, "nan")):
         v = Obj("float_value_" + kind)
 
@@ -148,9 +149,12 @@ def float_model(ctx, rule):
         try:
             outs = it.run_all(f, {f.params[0]: v, f.params[1]: [], f.params[2]: "", f.params[3]: []})
         except Unsupported as e:
-            raise AnalysisError("%s: absint cannot interpret %s: %s" % (rule, reg, e))
+            deferred = deferred or AnalysisError("%s: absint cannot interpret %s: %s" % (rule, reg, e))
+            continue
         if len(outs) != 1 or outs[0].imprecise or outs[0].kind != "return" or not isinstance(outs[0].value, str):
-            raise AnalysisError("%s: %s is not interpretable precisely on %s (%s)" % (rule, reg, kind, outs[0].notes[:2] if outs else "no outcome"))
+            # cannot decide on the abstract float -- unless the concrete probes below find a counterexample
+            deferred = deferred or AnalysisError("%s: %s is not interpretable precisely on %s (%s)" % (rule, reg, kind, outs[0].notes[:2] if outs else "no outcome"))
+            continue
         ctx.abstract_cases += 1
         text = outs[0].value
 
@@ -173,8 +177,50 @@ def float_model(ctx, rule):
         same = got is not None and (math.isnan(value) and math.isnan(got) or got == value)
         if not same:
             problems.append("%s is printed as %r, which does not denote that float" % (kind, text))
+    # concrete probes: finite floats chosen for what a hand-made format gets wrong (17 significant digits, exponents, an
+    # integral value, negative zero).  The printer is interpreted on the float itself; the emitted text, parsed, must
+    # denote exactly that float.  A disagreement is a concrete counterexample.
+    for value in (0.1 + 0.2, 1.1 * 3, 1e22, 1e-07, 1.0 / 3.0, -0.0, 123456789.0, 5e-324):
+        def hook2(fn, args, kwargs):
+            if fn in ("repr", "str") and len(args) == 1 and isinstance(args[0], float):
+                return repr(args[0])
+            if fn == "float" and len(args) == 1 and isinstance(args[0], str):
+                try:
+                    return float(args[0])
+                except ValueError:
+                    return NotImplemented
+            if fn.split(".")[-1] in ("isfinite", "isinf", "isnan") and len(args) == 1 and isinstance(args[0], float):
+                return getattr(math, fn.split(".")[-1])(args[0])
+            return NotImplemented
+        it = Interp(ctx.hier, call_hook=hook2)
+        try:
+            outs = it.run_all(f, {f.params[0]: value, f.params[1]: [], f.params[2]: "", f.params[3]: []})
+        except Unsupported as e:
+            raise AnalysisError("%s: absint cannot interpret %s on the float %r: %s" % (rule, reg, value, e))
+        if len(outs) != 1 or outs[0].imprecise or outs[0].kind != "return" or not isinstance(outs[0].value, str):
+            raise AnalysisError("%s: %s is not interpretable precisely on the float %r (%s)" % (rule, reg, value, outs[0].notes[:2] if outs else "no outcome"))
+        ctx.abstract_cases += 1
+        text = outs[0].value
+        try:
+            t = ast.parse(text, mode="eval").body
+        except SyntaxError:
+            t = None
+        got = None
+        if isinstance(t, ast.UnaryOp) and isinstance(t.op, ast.USub) and isinstance(t.operand, ast.Constant) and isinstance(t.operand.value, float):
+            got = -t.operand.value
+        elif isinstance(t, ast.Constant) and isinstance(t.value, float):
+            got = t.value
+        elif isinstance(t, ast.Call) and isinstance(t.func, ast.Name) and t.func.id == "float" and len(t.args) == 1 and isinstance(t.args[0], ast.Constant) and isinstance(t.args[0].value, str):
+            try:
+                got = float(t.args[0].value)
+            except ValueError:
+                got = None
+        if got is None or got != value or math.copysign(1.0, got) != math.copysign(1.0, value):
+            problems.append("the float %r is printed as %r, which %s" % (value, text, "is not a float literal" if got is None else "denotes %r" % got))
     if problems:
         ctx.fail(rule, f, f.node, "float printer model: %s (%d disagreeing case(s))" % (problems[0], len(problems)), key=f.qualname + "::float-printer-model")
+    elif deferred is not None:
+        raise deferred
     else:
         ctx.ok(rule, f, f.node, "float printer model: finite floats print as their repr, inf / -inf / nan as an expression that evaluates to them")
 
